@@ -512,3 +512,46 @@ pub fn fnv(h: &mut u64, b: &[u8]) {
         *h = h.wrapping_mul(0x100_0000_01B3);
     }
 }
+
+pub fn fsmount_tmpfs() -> Result<RawFd, i32> {
+    unsafe {
+        let fs = cstr(b"tmpfs");
+        let sfd = libc::syscall(libc::SYS_fsopen, fs.as_ptr(), 1) as RawFd;
+        if sfd < 0 {
+            return Err(errno());
+        }
+        let r = libc::syscall(libc::SYS_fsconfig, sfd, 6, 0usize, 0usize, 0);
+        if r < 0 {
+            let e = errno();
+            close(sfd);
+            return Err(e);
+        }
+        let mfd = libc::syscall(libc::SYS_fsmount, sfd, 1, 0) as RawFd;
+        let e = errno();
+        close(sfd);
+        if mfd < 0 {
+            return Err(e);
+        }
+        Ok(mfd)
+    }
+}
+
+/// move_mount(from_fd, "", to_fd, "", F_EMPTY_PATH | T_EMPTY_PATH)
+pub fn move_mount(from: RawFd, to: RawFd) -> Result<(), i32> {
+    let empty = b"\0";
+    let r = unsafe { libc::syscall(libc::SYS_move_mount, from, empty.as_ptr(), to, empty.as_ptr(), 0x4u32 | 0x40u32) };
+    if r == 0 {
+        Ok(())
+    } else {
+        Err(errno())
+    }
+}
+
+pub fn umount_nofollow(tgt: &[u8]) -> Result<(), i32> {
+    let t = cstr(tgt);
+    if unsafe { libc::umount2(t.as_ptr(), libc::MNT_DETACH | 8 /*UMOUNT_NOFOLLOW*/) } == 0 {
+        Ok(())
+    } else {
+        Err(errno())
+    }
+}
